@@ -23,6 +23,7 @@ type Occ struct {
 	Attach  string   `json:"attach"` // "", "=" or "sd" (SingleDash -xREST)
 	Val     string   `json:"val,omitempty"`
 	Rest    []string `json:"rest,omitempty"` // detached values
+	Lead    string   `json:"lead,omitempty"` // Bundling mode: an undeclared letter leading the bundle (`-Qx`), Pass mode only
 }
 
 type PlanItem struct {
@@ -61,6 +62,9 @@ func renderPlan(plan []PlanItem, primary bool, mode int) []string {
 			}
 		}
 		tok := dash + name
+		if o.Lead != "" && !primary && dash == "-" {
+			tok = dash + o.Lead + name
+		}
 		switch attach {
 		case "=":
 			tok += "=" + o.Val
